@@ -291,7 +291,9 @@ class Formatter(FormatterInterface):
     def _(self, oper: L.Neg | L.Not) -> str:
         """Format a unary operation."""
         arg = self(oper.arg)
-        if oper.arg.precedence >= oper.precedence:
+        # Parenthesise also an operand that starts with the operator itself
+        # (a negative literal): "--2.0" is a decrement in C, not -(-2.0)
+        if oper.arg.precedence >= oper.precedence or arg.startswith(oper.op):
             return f"{oper.op}({arg})"
         return f"{oper.op}{arg}"
 
